@@ -177,6 +177,20 @@ PROPS["C01"] = {
     "technique": "Lean 4 composition of the codec and text-form theorems + decision-logic proofs for presence/defaults and response-variant selection; end-to-end identity checks on regenerated client/server pairs",
 }
 
+PROPS["C07"] = {
+    "lean_modules": ["Ogen.Props.C07"],
+    "suites": ["c07"],
+    "trusted_base": [
+        KERNEL, HARNESS,
+        "statements in lean/Ogen/Props/C07.lean; spec Reaches/Path/Transparent; model RefChain.resolve/resolveAll hand-written from openapi/parser/resolve.go (resolveComponent, resolveHeader) and jsonpointer/resolve_ctx.go (AddKey/Delete); tie = header components that are $ref chains (forests + one defect: dangling, self-cycle, two-cycle) with shared targets and depth limits 1–6 parsed by parser.Parse, outcome per referrer (name, payload) or error kind compared with resolveAll line by line",
+        "NOT modelled: schema references (recursive types), external files / URL-relative keys, expand.go; transparency for every component kind (schema, parameter, header, response, requestBody, pathItem) is decided on the implementation: each random document is compared with its fully inlined copy, a randomly partially inlined copy and a second parse of itself through a structural projection ignoring Ref/location fields",
+    ],
+    "assumptions": ["component payloads are trees; the error kind is compared only for documents with at most one defective chain (otherwise it depends on Go map order which error is met first)"],
+    "level_text": "partial (abstract resolver for one context-carrying component kind): resolve_sound (own name + inlined payload, whatever the cache holds), resolveAll_transparent (k ≥ 2 referrers, order-independent), no_payload_error (cycles/dangling refs ⇒ error; totality is by construction), resolve_complete (acyclic within depth ⇒ resolves), D9 before/after witnesses; model tied differentially to parser.Parse; all-kinds transparency by inlining is implementation-only",
+    "level_note": "trusted: Lean kernel, statements/specs, chain model + tie, inlining oracle of the harness.",
+    "technique": "Lean 4 invariant proof over a cache in front of a recursive resolver (Inv preserved; soundness/completeness w.r.t. an inductive inlining relation); model=code by differential runs through parser.Parse; inlining equivalence on the implementation",
+}
+
 # properties not claimed, with the reason (kept current; see DESIGN.md §7)
 NOT_CLAIMED = {
     "C10": "not applicable: determinism/race-freedom of generation lives in Go map iteration order, goroutine scheduling and the memory model; no executable model separate from the runtime can express it (DESIGN.md §7)",
